@@ -60,7 +60,7 @@ def mk(v):
     if k == "date":
         return dt.date(2020, 1, v["t2"] // 2)
     if k == "datetime":
-        return dt.datetime(2020, 1, v["t2"] // 2, 12 if v["t2"] % 2 else 0)
+        return dt.datetime(2020, 1, v["t2"] // 2, 12 if v["t2"] % 2 else 0) + dt.timedelta(microseconds=v.get("us", 0))
     if k == "tuple":
         return tuple(mk(x) for x in v["items"])
     if k == "list":
